@@ -296,7 +296,7 @@ R("c16-phases-domain-from-last-source", S, '''            else:
 FIX_REVERT_FIRES = {
     "F1": ["C03", "C01", "C02"], "F2": ["C11"], "F3": ["C12"], "F4": ["C17"], "F5": ["C15"], "F6": ["C14"],
     "F7": ["C16"], "F8": ["C07", "C16"], "F9": ["C05", "C08", "C01"], "F10": ["C08"], "F11": ["C02"],
-    "F12": ["C15"], "F13": ["C14"], "F14": ["C16"],
+    "F12": ["C15"], "F13": ["C14"], "F14": ["C16"], "F15": ["C16"],
 }
 
 
@@ -524,7 +524,8 @@ def _c14():
     R("c15-set-comp-phases-store-before-check", S, '''        if isinstance(self._g[cidx], RLoss) or isinstance(self._g[cidx], VLoss):
             raise ValueError("Loss components does not support load phases!")
 
-        self._g.attrs["phase_conf"][name] = phase_conf''', '''        self._g.attrs["phase_conf"][name] = phase_conf
+        # name may be a rail name: file the configuration under the component
+        self._g.attrs["phase_conf"][self._g[cidx]._params["name"]] = phase_conf''', '''        self._g.attrs["phase_conf"][self._g[cidx]._params["name"]] = phase_conf
         if isinstance(self._g[cidx], RLoss) or isinstance(self._g[cidx], VLoss):
             raise ValueError("Loss components does not support load phases!")''', fires=["C15"])
     R("c15-set-sys-phases-store-first", S, '''        if len(list(phases.keys())) < 2 and phases != {}:
